@@ -654,4 +654,88 @@ def iterAll (E : Env) : Nat → HLink → M Unit
 def runOp (x : M PTree) (s : PS) (t : PTree) : PS × PTree × Outcome :=
   afterCommit x s t
 
+/-! ## a system of trees over one heap, store and cache -/
+
+inductive Op where
+  | ins (i k v : Nat)
+  | del (i k v : Nat)
+  | get (i k : Nat)
+  | iter (i : Nat)
+  | flush (i : Nat)
+  | clone (i : Nat)
+  | load (link size height bf : Nat)
+  deriving Repr, DecidableEq
+
+structure Sys where
+  ps : PS := {}
+  trees : List PTree := []
+  nextId : Nat := 1
+
+def runM {α : Type} (x : M α) (s : PS) : Option α × PS × Outcome :=
+  match x s with
+  | .ok a s' => (some a, s', .ok)
+  | .err s' => (none, s', .err)
+  | .panic => (none, s, .panic)
+  | .stuck => (none, s, .stuck)
+  | .oof => (none, s, .oof)
+
+def addTree (l : List PTree) : Option PTree → List PTree
+  | some t => l ++ [t]
+  | none => l
+
+/-- one public call on tree number `i` (or a load of a persisted root into a new tree) -/
+def Sys.apply (E : Env) (fuel : Nat) (σ : Sys) : Op → Sys × Outcome
+  | .ins i k v =>
+    match σ.trees[i]? with
+    | none => (σ, .ok)
+    | some t =>
+      let r := insert E fuel σ.ps t k v
+      ({ σ with ps := r.1, trees := σ.trees.set i r.2.1 }, r.2.2)
+  | .del i k v =>
+    match σ.trees[i]? with
+    | none => (σ, .ok)
+    | some t =>
+      let r := delete E fuel σ.ps t k v
+      ({ σ with ps := r.1, trees := σ.trees.set i r.2.1 }, r.2.2)
+  | .get i k =>
+    match σ.trees[i]? with
+    | none => (σ, .ok)
+    | some t =>
+      let r := runM (get E t fuel k) σ.ps
+      ({ σ with ps := r.2.1 }, r.2.2)
+  | .iter i =>
+    match σ.trees[i]? with
+    | none => (σ, .ok)
+    | some t =>
+      let r := runM (iterAll E fuel t.root) σ.ps
+      ({ σ with ps := r.2.1 }, r.2.2)
+  | .flush i =>
+    match σ.trees[i]? with
+    | none => (σ, .ok)
+    | some t =>
+      let r := runM (flush E t fuel) σ.ps
+      ({ σ with ps := r.2.1, trees := match r.1 with
+                                      | some x => σ.trees.set i x.1
+                                      | none => σ.trees }, r.2.2)
+  | .clone i =>
+    match σ.trees[i]? with
+    | none => (σ, .ok)
+    | some t =>
+      let r := runM (clone E t σ.nextId fuel) σ.ps
+      ({ ps := r.2.1, nextId := σ.nextId + 1,
+         trees := addTree σ.trees r.1 }, r.2.2)
+  | .load link size height bf =>
+    let r := runM (loadMast E σ.nextId link size height bf) σ.ps
+    ({ ps := r.2.1, nextId := σ.nextId + 1,
+       trees := addTree σ.trees r.1 }, r.2.2)
+
+/-- a whole history; stops at the first call that does not end in `ok` or `err` -/
+def Sys.run (E : Env) (fuel : Nat) : Sys → List Op → Sys × Outcome
+  | σ, [] => (σ, .ok)
+  | σ, op :: ops =>
+    match σ.apply E fuel op with
+    | (σ', .ok) => Sys.run E fuel σ' ops
+    | (σ', .err) => Sys.run E fuel σ' ops
+    | r => r
+
 end Mast.Ptr
